@@ -58,7 +58,7 @@ func names(h []byte) []string {
 
 func depthOf(c *fw.Ctx) int {
 	if c.Thorough() {
-		return 8
+		return 10
 	}
 	return 6
 }
@@ -296,7 +296,7 @@ func main() {
 	fw.Main(fw.Check{
 		ID: "C19", Level: "model_checking",
 		Rule: "BFS over histories of {add alt0, add alt1, add wrong-PreGroup, add missing-parent, add duplicate-id, remove-last, fork-switch-remove-2, restart} on the real group chain, " +
-			"depth 6 (quick) / 8 (thorough); each transition = fresh instance + replay + one op, merged on the canonical dump of store+side index+memory; " +
+			"depth 6 (quick) / 10 (thorough); each transition = fresh instance + replay + one op, merged on the canonical dump of store+side index+memory; " +
 			"a case is a (distinct implementation state, enabled op) pair; non-trivial = source state is not the post-boot state (at least one earlier op)",
 		Assumptions: []string{
 			"accept-all consensus stub: CheckGroup passes for every group",
